@@ -79,4 +79,6 @@ def run(tier, seed, ev):
     rc_m = tcommon.best(rc_m, rc_r)
     ev.functions = ev.functions + KH_LIST[0].functions
     ev.bounds["write_entry payload"] = KH_LIST[0].bounds
+    ev.outside = list(ev.outside) + ["the 65 536-directory pre-creation loop of first-time initialisation (pre_create_all_cas_directories) is ONE abstract, "
+                                     "idempotent effect here: that a crash inside the loop followed by a second initialisation leaves a complete tree is not decided"]
     return tcommon.best(rc_k, rc_m)
